@@ -408,7 +408,7 @@ class C07(E2ECheck):
             if R.end.get('how') in ('shutdown_cancel', 'with_exc',
                                     'with_kbi'):
                 steps.append(R.end.get('cancel_step', 0))
-            steps += [st for st, _ in R.sched.kbi_delivered]
+            steps += [x[0] for x in R.sched.kbi_delivered]
             calls = oracles.calls_of(R, r)
             if calls and steps:
                 b = min(c['begin'] or 0 for c in calls)
